@@ -37,6 +37,9 @@ class RecClient:
         self.last_call_t = time.monotonic()
         self.in_call = 0
         self.failed_t = None
+        self.paged = 0  # every k-th checkpoint response carries a NextMarker
+        self.page_fetches = 0
+        self.fail_page_at = None
 
     def checkpoint(self, durable_execution_arn, checkpoint_token, updates, client_token):
         from aws_durable_execution_sdk_python.lambda_service import CheckpointOutput, CheckpointUpdatedExecutionState
@@ -61,11 +64,19 @@ class RecClient:
             tok = "T%d" % self.tok
             self.in_call -= 1
             self.last_call_t = time.monotonic()
-        return CheckpointOutput(checkpoint_token=tok, new_execution_state=CheckpointUpdatedExecutionState())
+        # some responses are paginated: the rest of the updated state has to be fetched with GetDurableExecutionState
+        marker = "m%d" % n if (self.paged and n % self.paged == 0) else None
+        return CheckpointOutput(checkpoint_token=tok, new_execution_state=CheckpointUpdatedExecutionState(next_marker=marker))
 
     def get_execution_state(self, *a, **k):
         from aws_durable_execution_sdk_python.lambda_service import StateOutput
 
+        with self.lock:
+            self.page_fetches += 1
+            nth = self.page_fetches
+            self.last_call_t = time.monotonic()
+        if self.fail_page_at is not None and nth == self.fail_page_at:
+            raise RuntimeError("injected page fetch failure at fetch %d" % nth)
         return StateOutput()
 
 
@@ -77,6 +88,8 @@ def trial(case):  # noqa: C901, PLR0912, PLR0915
     cfg = CheckpointBatcherConfig(max_batch_size_bytes=case["max_bytes"], max_batch_time_seconds=case["window"],
                                   max_batch_operations=case["max_ops"])
     client = RecClient(case["latency"], case.get("fail_at"))
+    client.paged = case.get("paged", 0)
+    client.fail_page_at = case.get("fail_page_at")
     st = ExecutionState("arn:c05", "T0", {}, client, batcher_config=cfg)
     handover: list[str] = []
     held, achieved, consumer_ref = [False], [False], [None]
@@ -179,7 +192,8 @@ def trial(case):  # noqa: C901, PLR0912, PLR0915
     delivered = list(client.delivered)
     hand = [h for h in handover if h is not None]
     # only judge items handed over before the last successful synchronous return of each producer (async tail may be abandoned)
-    failed = case.get("fail_at") is not None and len(client.calls) > case["fail_at"]
+    failed = (case.get("fail_at") is not None and len(client.calls) > case["fail_at"]) or \
+        (case.get("fail_page_at") is not None and client.page_fetches >= case["fail_page_at"])
     if len(set(delivered)) != len(delivered):
         viol.append(V(PROP, "C05/duplicate-delivery", "an update was delivered twice"))
     if attached and not failed:
@@ -227,7 +241,7 @@ def trial(case):  # noqa: C901, PLR0912, PLR0915
         if sum(sizes) > case["max_bytes"] and len(ids) > 1:
             viol.append(V(PROP, "C05/size-limit-exceeded", "call %d carried %d bytes in %d updates, limit %d" % (n, sum(sizes), len(ids), case["max_bytes"])))
     if failed:
-        if len(client.calls) > case["fail_at"] + 1:
+        if case.get("fail_at") is not None and len(client.calls) > case["fail_at"] + 1:
             viol.append(V(PROP, "C05/api-call-after-failure", "%d call(s) after the failed one" % (len(client.calls) - case["fail_at"] - 1)))
         dset = set(delivered)
         for pi, res in results.items():
@@ -283,8 +297,11 @@ def cases(tier, seed):
             plan.append((rng.choice([5, 20]), True, 0))  # final synchronous barrier
             plans.append(plan)
         fail_at = rng.randrange(0, 4) if i % 6 == 5 else None
+        paged = rng.choice([0, 0, 1, 2, 3])
+        fail_page_at = rng.randrange(1, 4) if (paged and i % 6 == 2) else None
         yield {"label": "batcher", "seed": seed * 1000003 + i, "max_bytes": max_bytes, "max_ops": max_ops, "window": window,
-               "latency": latency, "plans": plans, "fail_at": fail_at, "perturb": rng.choice(["none", "none", "yield"]),
+               "latency": latency, "plans": plans, "fail_at": fail_at, "paged": paged, "fail_page_at": fail_page_at,
+               "perturb": rng.choice(["none", "none", "yield"]),
                "glyphs": rng.choice([["p"], ["p"], ["\u00e9"], ["p", "\u6f22"], ["\U0001F600", "p", "\u00e9"]])}
 
 
@@ -320,6 +337,8 @@ def run_case(case):
             "obs": {"api_calls": st["calls"], "updates_delivered": st["delivered"], "handover_hook_attached": 1 if st["attached"] else 0,
                     "oversize_updates": st["oversize"], "inconclusive_trials": 1 if verdict == "inconclusive" else 0, "yield_hits": hits,
                     "failure_injected": 1 if case.get("fail_at") is not None else 0,
+                    "trials_with_paginated_responses": 1 if case.get("paged") else 0,
+                    "page_fetch_failure_injected": 1 if case.get("fail_page_at") is not None else 0,
                     "targeted_lost_wakeup_order_achieved": st["targeted"],
                     "trials_with_non_ascii_payloads": 0 if (case.get("glyphs") or ["p"]) == ["p"] else 1},
             "sample": {"label": "batcher", "producers": len(case["plans"]), "max_ops": case["max_ops"], "max_bytes": case["max_bytes"],
@@ -396,7 +415,7 @@ class _SlowConsumer(_StateYield):
 RULE = ("real ExecutionState + recording fake service client: 1-8 producer threads issuing scripted mixes of synchronous / asynchronous / empty "
         "checkpoints with sizes from 1 byte to 2x the size limit (incl. an oversize update that is not first in its batch), batcher configs "
         "max_ops in {1,2,3,5,250} x max_bytes in {400,1000,5000,750KB} x window in {0,1,5,50ms,1s}, client latency 0-20 ms, LINE-level yield "
-        "injection in state.py/threading.py, an injected client failure in 1/6 of the trials, and a sweep in which a producer parked between the failed-check and the enqueue is released 0-30 ms after the failing call raised while the checkpoint thread's failure handling is slowed to ~1 ms per statement. Exact hand-over order is recorded by a "
+        "injection in state.py/threading.py, an injected client failure in 1/6 of the trials, paginated checkpoint responses (every 1st-3rd call) with an injected page-fetch failure in some, and a sweep in which a producer parked between the failed-check and the enqueue is released 0-30 ms after the failing call raised while the checkpoint thread's failure handling is slowed to ~1 ms per statement. Exact hand-over order is recorded by a "
         "Queue._put override (runs under the queue's own mutex). Oracle: delivered order = hand-over order, no duplicates, nothing handed "
         "over before a returned sync checkpoint is lost or undelivered at its return, token chain, count and size limits (single oversize "
         "update excepted), and bounded release decided logically (closed system quiescent, client idle, producer still inside "
